@@ -215,6 +215,24 @@ Theorem C14_dep_chain_rawnode_refuted :
 Proof. exact dep_chain_rawnode_refuted. Qed.
 Print Assumptions C14_dep_chain_rawnode_refuted.
 
+(* refused calls and continued use: a refused transform hands out no variable and leaves name, parameter /
+   observed flags, distribution and strength as they were (only auto_transform may have been switched off);
+   after any number of refused calls an acceptable call has exactly the outcome it has on a fresh variable *)
+Theorem C14_refused_transform_is_noop : forall vp k v e,
+  transform_s vp k v = inl e ->
+  attempt_s vp k v = (refusal_state vp e v, None) /\ same_but_auto (refusal_state vp e v) v.
+Proof. exact refused_transform_is_noop. Qed.
+Print Assumptions C14_refused_transform_is_noop.
+
+Theorem C14_rejected_then_correct : forall ks v v1 vp k v' tv,
+  history_s ks v = (v1, None) ->
+  transform_s vp k v = inr (v', tv) ->
+  history_s (ks ++ [(vp, k)]) v = (v', Some tv)
+  /\ transform_s vp k v1 = inr (v', tv)
+  /\ flags_ok v v' tv.
+Proof. exact rejected_then_correct. Qed.
+Print Assumptions C14_rejected_then_correct.
+
 (* the hypotheses are satisfiable *)
 Example C14_ex_change_of_variables :
   exists d, is_derive (fwd bRecipSoftplus) (1 / 2) d /\ d <> 0
@@ -285,3 +303,10 @@ Example C14_ex_chained_flags :
          mkVar "sigma_transformed" false false false true false false;
          mkVar "sigma_transformed_transformed" true false true false false true].
 Proof. exact ex_chained_flags. Qed.
+
+Example C14_ex_rejected_then_correct :
+  history_s [(true, KInst true); (true, KClsBad); (true, KOther); (true, KCls false); (false, KOther);
+             (true, KCls true)] ex_sigma
+  = (mkVar "sigma" false false false true false false,
+     Some (mkVar "sigma_transformed" true false true false false true)).
+Proof. exact ex_rejected_then_correct. Qed.
